@@ -276,10 +276,10 @@ func dnsScenarioC18(w *dnsWorld) {
 	mode := []consts.DialMode{consts.DialMode_Domain, consts.DialMode_Domain, consts.DialMode_Ip, consts.DialMode_DomainPlus, consts.DialMode_DomainCao}[T.Choose(5)]
 	w.cfg = dnsCfg{optimistic: T.Chance(1, 2), staleTtl: 30, fixed: map[string]int{}, janitor: []time.Duration{30 * time.Second, 5 * time.Second}[T.Choose(2)], idleTTL: 2 * time.Minute}
 	w.cfg.maxSize = []int{0, 2}[T.Pick(4, 1)]
-	// a fifth of the domain-mode runs concentrate on one name with a long fixed_domain_ttl that is
+	// a third of the domain-mode runs concentrate on one name with a long fixed_domain_ttl that is
 	// resolved through both resolvers (two scoped entries of one name) in a cache of two entries:
 	// evictions re-derive what is known about the name from the entries that remain
-	scopeBias := mode == consts.DialMode_Domain && T.Chance(1, 5)
+	scopeBias := mode == consts.DialMode_Domain && T.Chance(1, 3)
 	biasOps := 0
 	if scopeBias {
 		w.cfg.maxSize = 2
